@@ -24,7 +24,9 @@ TRUSTED = ["ctrlc runs the handler on SIGINT (and SIGTERM/SIGHUP with the termin
 
 MAIN = "roughenough_server::main"
 FLAG = "roughenough_server::KEEP_RUNNING"
-IO_NAMES = ("recv_from", "recv", "accept", "pop", "try_recv", "read", "read_exact", "peek", "poll")
+IO_NAMES = ("recv_from", "recv", "accept", "pop", "try_recv", "read", "read_exact", "peek", "poll",
+            # progress that depends on another thread or on the peer: a full queue, a contended lock, a busy socket
+            "push", "try_send", "send", "send_to", "try_lock", "connect", "compare_exchange", "compare_exchange_weak", "recv_timeout", "is_full", "is_empty_queue")
 RANDOM_NAMES = ("next_u32", "next_u64", "gen", "fill_bytes", "sample")
 FINITE_ITER = ("iter", "iter_mut", "into_iter", "enumerate", "zip", "take", "chunks", "map", "values", "keys", "chain", "once", "rev", "skip", "drain", "windows")
 
@@ -194,7 +196,7 @@ def run(ctx):
                             io, rnd = reaches_io(x[1])
                             srcs_io |= set(io)
                             srcs_rand |= set(rnd)
-                        elif n in IO_NAMES and any(k in x[1] for k in ("mio::", "net::", "crossbeam", "ArrayQueue", "Udp", "Tcp")):
+                        elif n in IO_NAMES and any(k in x[1] for k in ("mio::", "net::", "crossbeam", "ArrayQueue", "Udp", "Tcp", "std::sync::", "mpsc", "atomic")):
                             srcs_io.add(n)
                         elif n in RANDOM_NAMES and "rand" in x[1]:
                             srcs_rand.add(n)
@@ -239,7 +241,7 @@ def run(ctx):
                 if audited:
                     ctx.ok("flag-in-loop", key, "audited: drains the statistics queue, whose only producers are the workers' own >= 100 ms timers; an outside party cannot keep it non-empty", fn.loc(hdr), chain=chain)
                 else:
-                    ctx.violation("flag-in-loop", key, "this loop runs for as long as %s keeps delivering and never reads the shutdown flag: a signal is not observed while it spins (reached via %s)" % ("/".join(sorted(srcs_io)), chain), fn.loc(hdr), chain=chain)
+                    ctx.violation("flag-in-loop", key, "the exit of this loop depends on %s (the network, a queue or another thread) and the loop never reads the shutdown flag: a signal is not observed while it spins (reached via %s)" % ("/".join(sorted(srcs_io)), chain), fn.loc(hdr), chain=chain)
             else:
                 ctx.violation("flag-in-loop", key, "loop without exit and without a flag check", fn.loc(hdr), chain=chain)
     # every load of the flag inside a loop: on `false` control must leave that loop for good
